@@ -26,6 +26,18 @@ THEOREMS = {
     "C11_model_is_source_create_plate_balanced_holdout_set_among_masked_plates": "the translation of the whole function create_plate_balanced_holdout_set_among_masked_plates (range check and raise, loop over plates, is_observed continue, ceil(plate.size*fraction), rng.choice, selection_vector[indices] = True, both Screen(...) calls, returned pair) regenerated from /repo's retrospective.py equals the model holdout_balanced for every fraction num/den, count mode, screen and answer stream",
     "C11_model_is_source_merge_tb_get_plate_sample_id": "as C11_model_is_source_merge_min_get_plate_sample_id, for MergeTopBottomPlateSmoother._get_plate_sample_id",
     "C11_model_is_source_merge_tb_smooth_plates": "the translation of the whole method MergeTopBottomPlateSmoother._smooth_plates (loop over samples, for-range loop with break, comprehension, sort by size, halfway, zip of first half with reversed first half, bigger.merge(smaller)) regenerated from /repo's retrospective.py equals the model merge_tb for every n_iterations and screen",
+    "C11_model_is_source_create_random_holdout": "the translation of the whole function create_random_holdout (range check and raise, all-false vector, one rng.choice of math.ceil(size*fraction) of all row numbers, selection_vector[indices] = True, both Screen(...) calls, returned pair) regenerated from /repo equals the model holdout_random for every fraction num/den, count mode, screen and answer stream",
+    "C11_model_is_source_sample_segregating_generate_plates": "as C13_model_is_source_sample_segregating_generate_plates (translation of SampleSegregating._generate_plates = sample_seg_checked for max >= 0; = sample_seg true under the permutation contract; through the wrapper = generate_plates (GSampleSeg true mx))",
+    "C11_model_is_source_sample_segregating_generate_plates_negative_max": "as the C13 theorem of that name (negative max: same outcome up to the error tag)",
+    "C11_model_is_source_plate_permutation_generate_plates": "translation of PlatePermutationPlateGenerator._generate_plates = plate_perm; through the wrapper = generate_plates (GPerm force)",
+    "C11_model_is_source_fixed_size_smooth_plates": "translation of FixedSizeSmoother._smooth_plates = size_smooth; through the wrapper = smooth_plates (SFixed t)",
+    "C11_model_is_source_optimal_size_smooth_plates": "translation of OptimalSizeSmoother._smooth_plates = optimal_smooth; through the wrapper = smooth_plates SOptimal",
+    "C11_model_is_source_nplate_smooth_plates": "translations of NPlatePerCellLineSmoother._get_plate_sample_id / ._smooth_plates = plate_sample (as id) / nplate true; through the wrapper = smooth_plates (SNPlate true m)",
+    "C11_model_is_source_ensemble_smooth_plates": "translation of BatchieEnsemblePlateSmoother._smooth_plates = ensemble true for sufficient MergeMin fuel; through the wrapper = smooth_plates (SEnsemble true ..)",
+    "C11_model_is_source_sparse_cover_generate_and_unmask_initial_plate": "translations of the public initial-plate wrapper (core.py) and of SparseCoverPlateGenerator._generate_and_unmask_initial_plate compose to sparse_cover for sufficient while-fuel (> recorded answers or > distinct treatment ids)",
+    "C11_model_is_source_sparse_cover_terminates": "as C13_model_is_source_sparse_cover_terminates: the fuel hypothesis is discharged by the termination theorem",
+    "C11_model_is_source_filter_dataset_to_treatments_that_appear_in_at_least_one_combo": "translation of the combination filter (data.py) = combo_filter",
+    "C11_model_is_source_pairwise_generate_plates": "as C13_model_is_source_pairwise_generate_plates: translation of the whole method PairwisePlateGenerator._generate_plates = pairwise under the argsort hypothesis (first answer = np.argsort's positions when anchors are requested); through the wrapper = generate_plates (GPairwise ..)",
     "C11_generator_conserves": "every shipped generator, any oracle: generate_plates = Ok out -> out = new ++ observed input rows (unchanged), new all unobserved, new minus plate labels is a Permutation of the unobserved input rows minus plate labels",
     "C11_relabel_conserves": "generic: ANY relabelling of plates (any label oracle) leaves rows-minus-label unchanged, in order",
     "C11_smoother_sub": "every shipped smoother, any oracle: smooth_plates = Ok out -> out = new ++ observed input rows, new all unobserved, exists rest with Permutation (strip new ++ rest) (strip unobserved input)",
@@ -84,7 +96,14 @@ EXPLANATION = ("Models: Model/Retro.v (wrappers, PlatePermutation, SampleSegrega
                "(ceil_count: exact ceiling or the oracle value), rng.choice(a, n, replace=False) (the recorded answer, refused "
                "unless of length n), selection_vector[i] = True (vor with vof_idx), and the two Screen(...) constructor calls "
                "matched as whole expressions with all nine keyword arguments (rows not selected / rows selected marked "
-               "observed, then construct).  Not linked: the other generators / smoothers, create_random_holdout.")
+               "observed, then construct).  ROUND-2 LINKS (Generated/SrcRetroGen.v, Proofs/C13Source.v; the theorems "
+               "C11_model_is_source_create_random_holdout ... _filter_dataset_...): create_random_holdout = holdout_random (same "
+               "primitives as the plate-balanced hold-out, plus np.arange(screen.size) = all row numbers and math.ceil(screen.size * "
+               "fraction) = exact ceiling or Python's own value `count`; its two Screen(...) calls pass sample_mapping before "
+               "treatment_mapping and are matched as such), and the shipped generators / smoothers / SparseCover / combination "
+               "filter = the models the conservation theorems are about; their hypotheses (max_plate_size >= 0, permutation contract "
+               "or the checked model, sufficient while-fuel) and the full list of trusted primitives are in C13's explanation.  "
+               "PairwisePlateGenerator._generate_plates is linked too (C11_model_is_source_pairwise_generate_plates, hypothesis argsort_ok).")
 
 
 def gen(rng, tier):
